@@ -222,6 +222,10 @@ def check(case):
     trees = source_models(case)
     first_id = case.get("firstid")
     src_opts = ["quiet"] + (["brackets_firstid:%d" % first_id] if (first_id is not None and sfmt in ("brackets", "discobrackets")) else [])
+    counted = bool(case.get("continuous")) and sfmt in ("export", "tigerxml")
+    if counted:
+        src_opts.append("continuous")
+    skipdisco = dfmt == "brackets" and "brackets_skipdisco" in case.get("dest_opts", [])
     v4 = case.get("v4", False)
     sub = case.get("sub", False)
     dopts = list(case.get("dest_opts", []))
@@ -244,6 +248,9 @@ def check(case):
             convert(prefix, src, dest, sfmt, dfmt, senc, denc, src_opts, dopts, sub)
         dopt_set = set(dopts)
         out_v4 = "export_four" in dopt_set
+        if skipdisco:
+            # the bracket writer skips exactly the discontinuous trees when asked to
+            trees = [t for t in trees if M.tree_gapdeg(t["root"]) == 0]
         memory = [sim_read(sfmt, t["root"], v4=v4) for t in trees]
         expected = [sim_write(dfmt, m, dopt_set) for m in memory]
         decoded = decode_dest(prefix, dfmt, dest, denc, out_v4)
@@ -252,6 +259,8 @@ def check(case):
         for i, ((sid, got), exp, tree) in enumerate(zip(decoded, expected, trees)):
             if dfmt in ("export", "tigerxml"):
                 want_sid = tree["sid"] if sfmt in ("export", "tigerxml") else i + (1 if "brackets_firstid:%s" % first_id not in src_opts else first_id)
+                if counted:
+                    want_sid = i + 1
                 if sid != want_sid:
                     raise violation(prefix + "/sentence-id", "sentence %d written with id %r, expected %r" % (i + 1, sid, want_sid))
             if comparable(dfmt, got, out_v4) != comparable(dfmt, exp, out_v4):
@@ -323,7 +332,7 @@ def check(case):
                 if comparable(sfmt, got, "export_four" in bopts) != comparable(sfmt, exp, "export_four" in bopts):
                     raise violation(bprefix + "/content-lost-or-changed",
                                     "sentence %d: %s" % (i + 1, describe_diff(sfmt, got, exp, "export_four" in bopts)))
-                if sfmt in ("export", "tigerxml") and dfmt in ("export", "tigerxml") and sid != trees[i]["sid"]:
+                if sfmt in ("export", "tigerxml") and dfmt in ("export", "tigerxml") and sid != (i + 1 if counted else trees[i]["sid"]):
                     raise violation(bprefix + "/sentence-id", "%r vs %r" % (sid, trees[i]["sid"]))
     finally:
         shutil.rmtree(tmpdir, ignore_errors=True)
@@ -366,7 +375,8 @@ def conv_case(draw, max_tokens, max_sents, sub_fraction):
     dfmt = draw(st.sampled_from(DEST))
     senc = draw(st.sampled_from(["utf-8", "utf-8", "latin-1", "utf-16"]))
     denc = draw(st.sampled_from(["utf-8", "utf-8", "latin-1", "utf-16"]))
-    disc = 0.0 if "brackets" in (sfmt, dfmt) else 0.5
+    skip = dfmt == "brackets" and sfmt != "brackets" and draw(st.integers(0, 2)) == 0
+    disc = 0.5 if skip else (0.0 if "brackets" in (sfmt, dfmt) else 0.5)
     tree = S.tree_model(max_tokens=max_tokens, disc=disc, words=words_for(sfmt, dfmt, [senc, denc]), lemmas=st.sampled_from(["--", "haus", "sein", "ä"]),
                         labels=st.sampled_from(["S", "NP", "VP", "X"]), pos=st.sampled_from(["NN", "VVFIN", "ART", "$,", "$."]),
                         edges=st.sampled_from(["HD", "SB", "--", "OA"]), morphs=st.sampled_from(["--", "Nom.Sg", "3.Sg"]), fields="full")
@@ -382,11 +392,13 @@ def conv_case(draw, max_tokens, max_sents, sub_fraction):
             dopts.append("gf_separator:#")
     if dfmt in ("brackets", "discobrackets") and draw(st.integers(0, 3)) == 0:
         dopts.append("brackets_emptyroot")
+    if skip:
+        dopts.append("brackets_skipdisco")
     return {"src": sfmt, "dest": dfmt, "src_enc": senc, "dest_enc": denc, "trees": trees, "v4": draw(st.booleans()),
             "gz": sfmt != "tigerxml" and draw(st.integers(0, 4)) == 0, "dirmode": draw(st.integers(0, 5)) == 0, "dest_opts": dopts,
             "sub": draw(st.floats(0, 1)) < sub_fraction, "back": True, "third": draw(st.sampled_from([None, None] + DEST)),
             "root_label": draw(st.sampled_from(["VROOT", "VROOT", "TOP", "S"])), "novroot": draw(st.integers(0, 2)) == 0,
-            "firstid": draw(st.sampled_from([None, None, 0, 0, 7, 1000]))}
+            "firstid": draw(st.sampled_from([None, None, 0, 0, 7, 1000])), "continuous": draw(st.integers(0, 3)) == 0}
 
 
 def classes_of(case):
@@ -397,6 +409,8 @@ def classes_of(case):
         out.append("root-label-not-VROOT")
     if tiger_novroot(case):
         out.append("tigerxml-source-without-VROOT")
+    if case.get("continuous") and case["src"] in ("export", "tigerxml"):
+        out.append("src-opt:continuous")
     if case.get("firstid") is not None and case["src"] in ("brackets", "discobrackets"):
         out.append("brackets_firstid=%d" % case["firstid"])
     for flag in ("gz", "dirmode", "sub"):
